@@ -68,6 +68,9 @@ def run(chk):
             prior = make_gmm(w, mu, var, thr=thr)
             m = GMMMachine(n_gaussians=C, trainer="map", ubm=prior, **kw)
             m.means = np.asarray(mu) + g.normal(size=(C, D)) * s * 0.2       # adapted parameters differ from the prior's
+            if i % 2 == 0:
+                m.variances = np.asarray(var) * g.uniform(0.5, 3.0, size=(C, D))
+                m.weights = gen.simplex(r, C)
         else:
             prior = None
             m = make_gmm(w, mu, var, thr=thr, **kw)
